@@ -86,6 +86,8 @@ def build(pipe: str, faults: list[dict], sid: str) -> dict:
             files[f] = bad_content(x["kind"], spec["good"])
         elif x["kind"] == "vanish":
             inject.setdefault("vanish", []).append({"c": c, "f": f})
+        elif x["kind"] == "malformedTree":
+            inject.setdefault("malformed_tree", []).append({"c": c, "f": f})
         elif x["kind"] == "raise":
             inject.setdefault("raise_in_transform", []).append({"c": c, "f": f})
         elif x["kind"].startswith("raiseAtNode"):
@@ -173,7 +175,7 @@ def run(chk: Check) -> None:
 
         others_ok = True
         for x in m["faults"]:
-            if x["kind"].startswith("raise"):
+            if x["kind"].startswith("raise") or x["kind"] == "malformedTree":
                 f = FILES[x["fj"] - 1]
                 for ci, cid in enumerate(q, 1):
                     if ci != x["ci"] and touches(st["report"], cid, f) != touches(twin["report"], cid, f):
